@@ -1087,7 +1087,7 @@ func TestC07(t *testing.T) {
 	prog := hx.NewLog(filepath.Join(out, "c07_progress.ndjson"))
 	prog.Unbuffered = true
 	defer prog.Close()
-	spoolRoot := "/dev/shm"
+	spoolRoot := hx.ShmBase()
 	if _, err := os.Stat(spoolRoot); err != nil {
 		spoolRoot = out
 	}
